@@ -456,13 +456,8 @@ func (d *driver) run() int {
 			defer wg.Done()
 			var p *wproc
 			startProc := func() error {
-				args := []string{"-worker", "-tier", d.tier}
-				if d.racelog != "" {
-					args = append(args, "-racepass", "-racelog", d.racelog)
-				}
-				if d.knownFile != "" {
-					args = append(args, "-known", d.knownFile)
-				}
+				// the worker sees exactly the driver's flags (harnesses add their own)
+				args := append(append([]string{}, os.Args[1:]...), "-worker")
 				cmd := exec.Command(self, args...)
 				cmd.Env = append(os.Environ(), "GOMAXPROCS=2")
 				cmd.Stderr = os.Stderr
